@@ -75,7 +75,9 @@ class Hist:
         qids = list(range(1, nq + 1))
         pdrs, fars = [], []
         for k in range(npairs):
-            s = None if sdf is None else SDFS[(sdf + k) % 4]
+            # PDRs of one session must have distinct match keys (terminations are keyed by UE address + application id):
+            # only the first pair may go without a filter
+            s = (None if k == 0 else SDFS[(k - 1) % 4]) if sdf is None else SDFS[(sdf + k) % 4]
             ul = {"id": 2 * k + 1, "prec": 100 + k, "iface": 0, "fteid": (0x1000 + 16 * i + k, ACCESS_IP), "ue": ue, "ohr": True,
                   "far": 2 * k + 1, "qers": qids}
             dl = {"id": 2 * k + 2, "prec": 100 + k, "iface": 1, "ue": ue, "far": 2 * k + 2, "qers": qids}
